@@ -37,9 +37,10 @@ inline std::string pick_token(Tape &t, bool allow_meta) {
 }
 
 struct Edit {
-  enum K { DEL, INS, REP, SWAP, TRUNC } k;
+  enum K { DEL, INS, REP, SWAP, TRUNC, DELN } k;
   size_t pos;
   std::string tok;
+  size_t n = 1;  // DELN: number of consecutive tokens removed
 };
 
 inline std::vector<std::string> texts_of(const std::string &src) {
@@ -63,6 +64,10 @@ inline void apply_edit(std::vector<std::string> &toks, const Edit &e) {
     case Edit::TRUNC:
       if (e.pos < toks.size()) toks.resize(e.pos);
       break;
+    case Edit::DELN:
+      if (e.pos < toks.size())
+        toks.erase(toks.begin() + (long)e.pos, toks.begin() + (long)std::min(toks.size(), e.pos + e.n));
+      break;
   }
 }
 
@@ -72,15 +77,22 @@ inline bool is_id_text(const std::string &s) {
   return l.size() == 1 && l[0].k == ref::K::ID;
 }
 inline bool is_int_text(const std::string &s) { return !s.empty() && isdigit((unsigned char)s[0]); }
+inline bool is_keyword_text(const std::string &s) {
+  if (s.empty() || !isalpha((unsigned char)s[0])) return false;
+  auto l = ref::lex_text(s, "m");
+  return l.size() == 1 && l[0].k != ref::K::ID;
+}
 
 // random edit; besides the blind edits there are two kind-preserving ones that keep the source
 // syntactically valid and so reach the static rules: rename an identifier to another identifier of
-// the source (labels, callees, variables), replace a literal by a boundary literal
+// the source (labels, callees, variables), replace a literal by a boundary literal; and two that
+// remove a whole phrase: 2-4 consecutive tokens, or a keyword with everything up to the next keyword
+// (`IN a, b` of a header, `OUT r`, `WITH 1, 2`, `THEN`...)
 inline Edit random_edit(Tape &t, const std::vector<std::string> &toks, bool allow_meta) {
   size_t ntoks = toks.size();
   Edit e;
   e.pos = ntoks ? t.pick((unsigned)ntoks + 1) : 0;
-  switch (t.weighted({3, 3, 3, 2, 1, 4, 2})) {
+  switch (t.weighted({3, 3, 3, 2, 1, 4, 2, 1, 2})) {
     case 0: e.k = Edit::DEL; break;
     case 1:
       e.k = Edit::INS;
@@ -117,6 +129,24 @@ inline Edit random_edit(Tape &t, const std::vector<std::string> &toks, bool allo
       e.pos = ints[t.pick((unsigned)ints.size())];
       static const char *B[] = {"2147483646", "2147483647", "2147483648", "0", "4294967296", "99999999999999999999", "7"};
       e.tok = B[t.pick(7)];
+      break;
+    }
+    case 7:
+      e.k = Edit::DELN;
+      e.n = 2 + t.pick(3);
+      break;
+    case 8: {
+      e.k = Edit::DELN;
+      std::vector<size_t> kws;
+      for (size_t i = 0; i < ntoks; i++)
+        if (is_keyword_text(toks[i])) kws.push_back(i);
+      if (kws.empty()) {
+        e.n = 2;
+        break;
+      }
+      size_t ki = t.pick((unsigned)kws.size());
+      e.pos = kws[ki];
+      e.n = (ki + 1 < kws.size() ? kws[ki + 1] : ntoks) - e.pos;
       break;
     }
   }
